@@ -643,3 +643,54 @@ def check_encoder_refusals(env, rep, rule):
                       v["name"], {"empty": "a byte length is 0 - an empty string is a legal value (02 00 00)", "other": "no length was found to be out of range"}.get(next(iter(badk), ""), ""),
                       next(iter(badk.values()), ""), " and the empty property name" if v["name"] == "Object" else ""), sv.span)
     rep.floor(rule, "Amf0Value variants whose refusals were classified", n, 7)
+
+
+# ---------------------------------------------------------------------------------------------- what the decoder refuses
+DECODER_REFUSAL_DECISIONS = [
+    (r"^elem(\[\d+\])?( of \w+)?$|^\(?elem\[0\]", "the marker byte (an unsupported marker, or an empty name not followed by the end marker)"),
+    (r"load\(\*?depth\)|load\(\*?load\(\w+\)\.depth\)|depth", "the nesting depth (documented limit)"),
+    (r"^discr\((load\()?call\([^()]*(read_next_value|parse_\w+|read_\w+)\)\)? as Ok\.0\)?\)$", "the end of the input inside a value"),
+    (r"read_u8\) as Ok\.0", "an empty property name that is not the object terminator"),
+    (r"from_utf8", "bytes that are not UTF-8"),
+]
+
+
+def check_decoder_refusals(env, rep, rule):
+    """The decoder may build an error only for input the encoder never writes: an unsupported marker, nesting beyond the documented
+    limit, the end of the input inside a value, an empty property name that is not the terminator, bytes that are not UTF-8.  A
+    refusal decided by anything else - in particular by the decoded *value* - makes some encodable value undecodable (encode then
+    decode is no longer the identity).  Classified per error path of every decoder function by the decision that sent it there."""
+    prog = env.prog
+    de = body_by_pretty(prog, "deserialization::deserialize")
+    if de is None:
+        rep.anchor_missing(rule, "deserialization::deserialize")
+        return
+    n = 0
+    for k in sorted(prog.reachable_from([de.key])):
+        b = prog.bodies.get(k)
+        if b is None or b.kind == "promoted" or not b.key.startswith("rml_amf0"):
+            continue
+        ex = grammar.Extractor(env, b.key, "r")
+        ex.run()
+        if ex.truncated:
+            rep.cannot_analyse(rule, b.pretty, "too many paths in %s" % b.pretty, b.span)
+            continue
+        seen = set()
+        for p in ex.paths:
+            rets = [t for t in p if t[0] == "returns"]
+            if not rets or not str(rets[-1][1]).startswith("Err("):
+                continue
+            whens = [t for t in p if t[0] == "when"]
+            last = whens[-1][1] if whens else ""
+            why = next((txt for pat, txt in DECODER_REFUSAL_DECISIONS if re.search(pat, last)), None)
+            err = re.sub(r"\(.*", "", str(rets[-1][1])[4:])
+            key = (err, why is not None)
+            if key in seen:
+                continue
+            seen.add(key)
+            n += 1
+            rep.check(rule, "%s|refuses:%s" % (b.pretty.split("::")[-1], err.split("::")[-1]), why is not None,
+                      "%s builds %s only on %s" % (b.pretty.split("::")[-1], err.split("::")[-1], why),
+                      "%s builds the error %s on the decision [%s]: the decoder may refuse only unsupported markers, nesting beyond the limit, truncated input, an empty name that is not the "
+                      "terminator and invalid UTF-8 - a refusal that depends on the decoded value makes a value the encoder writes undecodable" % (b.pretty, err, last[:120]), b.span)
+    rep.floor(rule, "errors built by the AMF0 decoder", n, 3)
